@@ -61,7 +61,8 @@ class CFormatter(Formatter):
 
     @override(Formatter)
     def format_import_statement(self, t: Proto, as_name: Optional[str] = None) -> str:
-        return '#include "{0}_bp.h"'.format(t.name)
+        # Name of the header generated for the imported proto, which follows its file name.
+        return '#include "{0}"'.format(self.format_out_filename(t, extension=".h"))
 
     ##################
     # Naming prefix
